@@ -10,6 +10,7 @@ Definition ob (o : option bool) : list str :=
 
 Definition nd (s : str) : N := match N_of_dec s with Some z => z | None => 0 end.
 Definition is_d (s : str) : bool := str_eqb s [100].   (* "d" *)
+Definition is_w (s : str) : bool := str_eqb s [119].   (* "w": Syntax::windows *)
 
 Fixpoint take_n (n : nat) (l : list str) : option (list str * list str) :=
   match n with
@@ -100,7 +101,7 @@ Definition run (fields : list str) : list str :=
   | tag :: args =>
       if tag_is tag [112;109] then                                   (* pm *)
         match args with
-        | [p; t; b; m; _] => ob (pathmatch_model p t b (is_d m))
+        | [p; t; b; m; sy] => ob (if is_w sy then pathmatch_w p t b (is_d m) else pathmatch_model p t b (is_d m))
         | _ => BAD
         end
       else if tag_is tag [112;109;115;112;101;99] then               (* pmspec *)
@@ -117,17 +118,17 @@ Definition run (fields : list str) : list str :=
         end
       else if tag_is tag [105;116;101;114;112;97;116] then           (* iterpat *)
         match args with
-        | [p; b; _] => [rev (iter_pattern p b)]
+        | [p; b; sy] => [rev (if is_w sy then iter_pattern_w p b else iter_pattern p b)]
         | _ => BAD
         end
       else if tag_is tag [105;116;101;114;112;97;116;104] then       (* iterpath *)
         match args with
-        | [p; b; _] => [rev (iter_path p b)]
+        | [p; b; sy] => [rev (if is_w sy then iter_path_w p b else iter_path p b)]
         | _ => BAD
         end
       else if tag_is tag [105;116;101;114;114;97;119] then           (* iterraw *)
         match args with
-        | [a; b; _] => [iter_read a b]
+        | [a; b; sy] => [if is_w sy then iter_read_w a b else iter_read a b]
         | _ => BAD
         end
       else if tag_is tag [99;97;110;111;110] then                    (* canon *)
